@@ -4,6 +4,7 @@ from __future__ import annotations
 
 import ast
 from typing import Dict, Iterable, Iterator, List, Optional, Set, Tuple
+from dataclasses import dataclass
 
 from .program import FunctionInfo, Program, ancestors, attr_chain, norm, walk_function
 
@@ -192,3 +193,305 @@ def attr_base(node: ast.AST) -> Optional[str]:
     while isinstance(cur, (ast.Subscript, ast.Attribute)):
         cur = cur.value
     return cur.id if isinstance(cur, ast.Name) else None
+
+
+# ---------------------------------------------------------------------------------------------------------------
+# Form-insensitive helpers: rules describe WHAT is computed, these absorb HOW it is spelled
+# (named intermediates, loop forms, comprehension vs append loop).
+# ---------------------------------------------------------------------------------------------------------------
+def _single_defs(fn: ast.AST) -> Dict[str, ast.AST]:
+    """name -> value for locals bound exactly once by a plain `name = value` (or tuple element of `a, b = x, y`)."""
+    cache = getattr(fn, "_single_defs", None)
+    if cache is not None:
+        return cache
+    counts: Dict[str, int] = {}
+    vals: Dict[str, ast.AST] = {}
+    params = set()
+    if isinstance(fn, (ast.FunctionDef, ast.AsyncFunctionDef)):
+        a = fn.args
+        params = {x.arg for x in a.posonlyargs + a.args + a.kwonlyargs}
+    for st in walk_function(fn):
+        if isinstance(st, ast.Assign):
+            for t in st.targets:
+                if isinstance(t, ast.Name):
+                    counts[t.id] = counts.get(t.id, 0) + 1
+                    vals[t.id] = st.value
+                elif isinstance(t, (ast.Tuple, ast.List)):
+                    if isinstance(st.value, (ast.Tuple, ast.List)) and len(st.value.elts) == len(t.elts):
+                        for e, v in zip(t.elts, st.value.elts):
+                            if isinstance(e, ast.Name):
+                                counts[e.id] = counts.get(e.id, 0) + 1
+                                vals[e.id] = v
+                            else:
+                                for n in target_names(e):
+                                    counts[n] = counts.get(n, 0) + 2
+                    else:
+                        for n in target_names(t):
+                            counts[n] = counts.get(n, 0) + 2
+        elif isinstance(st, (ast.AugAssign, ast.AnnAssign)):
+            for n in target_names(st.target):
+                counts[n] = counts.get(n, 0) + (1 if isinstance(st, ast.AnnAssign) and st.value is not None else 2)
+                if isinstance(st, ast.AnnAssign) and st.value is not None and isinstance(st.target, ast.Name):
+                    vals[n] = st.value
+        elif isinstance(st, (ast.For, ast.AsyncFor)):
+            for n in target_names(st.target):
+                counts[n] = counts.get(n, 0) + 2
+        elif isinstance(st, (ast.With, ast.AsyncWith)):
+            for it in st.items:
+                if it.optional_vars is not None:
+                    for n in target_names(it.optional_vars):
+                        counts[n] = counts.get(n, 0) + 2
+        elif isinstance(st, ast.NamedExpr):
+            counts[st.target.id] = counts.get(st.target.id, 0) + 2
+        elif isinstance(st, ast.comprehension):
+            for n in target_names(st.target):
+                counts[n] = counts.get(n, 0) + 2
+    out = {n: v for n, v in vals.items() if counts.get(n) == 1 and n not in params}
+    try:
+        fn._single_defs = out  # type: ignore[attr-defined]
+    except Exception:
+        pass
+    return out
+
+
+class _Expander(ast.NodeTransformer):
+    def __init__(self, defs: Dict[str, ast.AST], depth: int, stop: Set[str]):
+        self.defs, self.depth, self.stop = defs, depth, stop
+
+    def visit_Name(self, node: ast.Name):
+        if isinstance(node.ctx, ast.Load) and node.id in self.defs and node.id not in self.stop and self.depth > 0:
+            from .inline import clone
+
+            sub = _Expander(self.defs, self.depth - 1, self.stop | {node.id})
+            return sub.visit(clone(self.defs[node.id]))
+        return node
+
+
+def expand(fn: ast.AST, expr: Optional[ast.AST], depth: int = 6, keep: Iterable[str] = ()) -> Optional[ast.AST]:
+    """`expr` with every single-assignment local replaced by its defining expression (recursively): the form the
+    expression would have without named intermediates.  Names in `keep` are left alone."""
+    if expr is None:
+        return None
+    from .inline import clone
+
+    return _Expander(_single_defs(fn), depth, set(keep)).visit(clone(expr))
+
+
+def xnorm(fn: ast.AST, expr: Optional[ast.AST], keep: Iterable[str] = ()) -> str:
+    """Normalised text of the expanded expression."""
+    e = expand(fn, expr, keep=keep)
+    return norm(e) if e is not None else ""
+
+
+@dataclass
+class LoopElems:
+    seq: ast.AST                 # the sequence iterated
+    index: Optional[str]         # loop index name (range / enumerate forms)
+    elem: Optional[str]          # element name (`for e in S`, enumerate)
+    extra: List[Tuple[ast.AST, str]]  # further (sequence, element name) pairs of a zip
+
+    def is_elem(self, e: ast.AST, of: Optional[ast.AST] = None) -> bool:
+        """Does expression `e` denote the current element of the sequence (`of` defaults to self.seq)?  Accepts the bare
+        element name, S[i], S[i, :], S[i, ...], S[i:i + 1], and those wrapped in unsqueeze(0)/[None]."""
+        seq = norm(of if of is not None else self.seq)
+        if isinstance(e, ast.Call) and isinstance(e.func, ast.Attribute) and e.func.attr in ("unsqueeze", "clone", "float", "to") :
+            return self.is_elem(e.func.value, of)
+        if isinstance(e, ast.Call) and norm(e.func) in ("torch.unsqueeze", "np.expand_dims") and e.args:
+            return self.is_elem(e.args[0], of)
+        if isinstance(e, ast.Name):
+            if of is None or norm(of) == norm(self.seq):
+                return e.id == self.elem
+            return any(e.id == nm and norm(s) == seq for s, nm in self.extra)
+        if isinstance(e, ast.Subscript) and norm(e.value) == seq and self.index is not None:
+            s = e.slice
+            first = s.elts[0] if isinstance(s, ast.Tuple) else s
+            rest = s.elts[1:] if isinstance(s, ast.Tuple) else []
+            if not all(isinstance(r, ast.Slice) and r.lower is None and r.upper is None or (isinstance(r, ast.Constant) and r.value is Ellipsis) for r in rest):
+                return False
+            if isinstance(first, ast.Name) and first.id == self.index:
+                return True
+            if isinstance(first, ast.Slice) and first.lower is not None and first.upper is not None and norm(first.lower) == self.index \
+                    and norm(first.upper).replace(" ", "") in (f"{self.index}+1", f"1+{self.index}") and first.step is None:
+                return True
+        return False
+
+
+def loop_elems(loop: ast.AST, fn: Optional[ast.AST] = None) -> Optional[LoopElems]:
+    """Describe what a for-loop (or comprehension generator) iterates: for e in S / for i, e in enumerate(S) /
+    for i in range(len(S)) | range(S.shape[0]) | range(S.size(0)) / for a, b in zip(S, T)."""
+    it, tg = loop.iter, loop.target
+    if isinstance(it, ast.Call) and norm(it.func) == "enumerate" and it.args and isinstance(tg, ast.Tuple) and len(tg.elts) == 2 and isinstance(tg.elts[0], ast.Name):
+        inner = tg.elts[1]
+        if isinstance(it.args[0], ast.Call) and norm(it.args[0].func) == "zip" and isinstance(inner, ast.Tuple):
+            seqs = it.args[0].args
+            names = [e.id if isinstance(e, ast.Name) else None for e in inner.elts]
+            if len(seqs) == len(names) and seqs:
+                return LoopElems(seqs[0], tg.elts[0].id, names[0], [(s, n) for s, n in zip(seqs[1:], names[1:]) if n])
+        return LoopElems(it.args[0], tg.elts[0].id, inner.id if isinstance(inner, ast.Name) else None, [])
+    if isinstance(it, ast.Call) and norm(it.func) == "zip" and isinstance(tg, ast.Tuple) and len(it.args) == len(tg.elts) and it.args:
+        names = [e.id if isinstance(e, ast.Name) else None for e in tg.elts]
+        return LoopElems(it.args[0], None, names[0], [(s, n) for s, n in zip(it.args[1:], names[1:]) if n])
+    if isinstance(it, ast.Call) and norm(it.func) == "range" and len(it.args) == 1 and isinstance(tg, ast.Name):
+        n = it.args[0]
+        if fn is not None:
+            n = expand(fn, n, depth=2)
+        seq = None
+        if isinstance(n, ast.Call) and norm(n.func) == "len" and n.args:
+            seq = n.args[0]
+        elif isinstance(n, ast.Subscript) and isinstance(n.value, ast.Attribute) and n.value.attr == "shape" and const_value(n.slice) == 0:
+            seq = n.value.value
+        elif isinstance(n, ast.Call) and isinstance(n.func, ast.Attribute) and n.func.attr == "size" and n.args and const_value(n.args[0]) == 0:
+            seq = n.func.value
+        if seq is not None:
+            return LoopElems(seq, tg.id, None, [])
+        return None
+    if isinstance(tg, ast.Name):
+        return LoopElems(it, None, tg.id, [])
+    return None
+
+
+@dataclass
+class ListBuild:
+    name: str
+    elt: ast.AST                       # appended / comprehension element expression
+    gens: List[ast.AST]                # the loops (For nodes or comprehension generators), outermost first
+    conds: List[ast.AST]               # conditions guarding the element
+    site: ast.AST                      # the append call or the comprehension
+
+
+def list_builds(fn: ast.AST, name: str) -> List[ListBuild]:
+    """All the ways the list `name` receives elements: `name = [elt for ... if c]` and `name.append(elt)` inside loops."""
+    out: List[ListBuild] = []
+    for st in walk_function(fn):
+        if isinstance(st, ast.Assign) and any(norm(t) == name for t in st.targets) and isinstance(st.value, ast.ListComp):
+            c = st.value
+            out.append(ListBuild(name, c.elt, list(c.generators), [i for g in c.generators for i in g.ifs], c))
+        elif isinstance(st, ast.Call) and isinstance(st.func, ast.Attribute) and st.func.attr == "append" and norm(st.func.value) == name and st.args:
+            loops = list(reversed(enclosing_loops(st)))
+            conds = [a.test for a in ancestors(st) if isinstance(a, ast.If) and (not loops or in_body_of(a, loops[0]) or a in loops)]
+            out.append(ListBuild(name, st.args[0], loops, conds, st))
+    return out
+
+
+@dataclass
+class Record:
+    fields: Dict[str, ast.AST]      # constant key -> value expression
+    fresh: bool                     # a new dict object is created in every iteration
+    sink: Optional[ast.Call]        # the `.append(record)` / `yield` site, if any
+    holder: Optional[str]           # name of the dict variable, if it has one
+
+
+def dict_records(scope: ast.AST) -> List[Record]:
+    """Dict-shaped records built inside `scope` (typically a loop): `d = {}; d[k] = v; xs.append(d)`,
+    `d = {k: v}; xs.append(d)` and `xs.append({k: v})` are the same thing."""
+    out: List[Record] = []
+    body_nodes = [n for st in getattr(scope, "body", []) for n in ast.walk(st)]
+    appends = [n for n in body_nodes if isinstance(n, ast.Call) and isinstance(n.func, ast.Attribute) and n.func.attr == "append" and n.args]
+    seen_holders: Set[str] = set()
+    for c in appends:
+        a = c.args[0]
+        if isinstance(a, ast.Dict):
+            out.append(Record({k.value: v for k, v in zip(a.keys, a.values) if isinstance(k, ast.Constant)}, True, c, None))
+        elif isinstance(a, ast.Name):
+            h = a.id
+            inits = [n for n in body_nodes if isinstance(n, ast.Assign) and any(norm(t) == h for t in n.targets)
+                     and (isinstance(n.value, ast.Dict) or (isinstance(n.value, ast.Call) and norm(n.value.func) == "dict"))]
+            stores = [n for n in body_nodes if isinstance(n, ast.Assign) and isinstance(n.targets[0], ast.Subscript) and norm(n.targets[0].value) == h
+                      and isinstance(n.targets[0].slice, ast.Constant)]
+            if not inits and not stores:
+                continue
+            fields: Dict[str, ast.AST] = {}
+            for i in inits:
+                if isinstance(i.value, ast.Dict):
+                    fields.update({k.value: v for k, v in zip(i.value.keys, i.value.values) if isinstance(k, ast.Constant)})
+                else:
+                    fields.update({k.arg: k.value for k in i.value.keywords if k.arg})
+            for s in stores:
+                fields[s.targets[0].slice.value] = s.value
+            seen_holders.add(h)
+            out.append(Record(fields, len(inits) == 1, c, h))
+    return out
+
+
+# ------------------------------------------------------------------ if/else joins as conditional expressions
+def phi_defs(fn: ast.AST) -> Dict[str, ast.IfExp]:
+    """Locals bound exactly twice, once in each arm of the same `if`: name -> IfExp(test, then-value, else-value)."""
+    cache = getattr(fn, "_phi_defs", None)
+    if cache is not None:
+        return cache
+    sites: Dict[str, List[ast.Assign]] = {}
+    other: Dict[str, int] = {}
+    for st in walk_function(fn):
+        if isinstance(st, ast.Assign) and len(st.targets) == 1 and isinstance(st.targets[0], ast.Name):
+            sites.setdefault(st.targets[0].id, []).append(st)
+        elif isinstance(st, (ast.Assign, ast.AugAssign, ast.AnnAssign, ast.For, ast.AsyncFor)):
+            tg = st.targets if isinstance(st, ast.Assign) else [st.target]
+            for t in tg:
+                for n in target_names(t):
+                    other[n] = other.get(n, 0) + 1
+    out: Dict[str, ast.IfExp] = {}
+    for name, defs in sites.items():
+        if len(defs) != 2 or other.get(name):
+            continue
+        a, b = defs
+        pa, pb = getattr(a, "_parent", None), getattr(b, "_parent", None)
+        if pa is pb and isinstance(pa, ast.If) and ((a in pa.body and b in pa.orelse) or (b in pa.body and a in pa.orelse)):
+            t, e = (a, b) if a in pa.body else (b, a)
+            out[name] = ast.IfExp(test=pa.test, body=t.value, orelse=e.value)
+    try:
+        fn._phi_defs = out  # type: ignore[attr-defined]
+    except Exception:
+        pass
+    return out
+
+
+def expand_phi(fn: ast.AST, expr: Optional[ast.AST], depth: int = 8, keep: Iterable[str] = ()) -> Optional[ast.AST]:
+    """Like expand(), and names joined by an if/else become conditional expressions."""
+    if expr is None:
+        return None
+    from .inline import clone
+
+    defs = dict(_single_defs(fn))
+    defs.update(phi_defs(fn))
+    return _Expander(defs, depth, set(keep)).visit(clone(expr))
+
+
+class _Choose(ast.NodeTransformer):
+    def __init__(self, choice: Dict[str, bool]):
+        self.choice = choice
+
+    def visit_IfExp(self, node: ast.IfExp):
+        k = norm(node.test)
+        if k in self.choice:
+            return self.visit(node.body if self.choice[k] else node.orelse)
+        return self.generic_visit(node)
+
+
+def cases(expr: ast.AST, limit: int = 16) -> List[Tuple[Dict[str, bool], ast.AST]]:
+    """Resolve the conditional expressions of `expr` consistently (equal tests take the same arm)."""
+    from .inline import clone
+
+    tests: List[str] = []
+    for n in ast.walk(expr):
+        if isinstance(n, ast.IfExp) and norm(n.test) not in tests:
+            tests.append(norm(n.test))
+    if not tests or 2 ** len(tests) > limit:
+        return [({}, expr)]
+    out = []
+    for mask in range(2 ** len(tests)):
+        ch = {t: bool(mask >> i & 1) for i, t in enumerate(tests)}
+        e = _Choose(ch).visit(clone(expr))
+        # nested tests that only appear under one arm may remain unresolved or vanish: keep distinct results only
+        out.append((ch, e))
+    uniq, seen = [], set()
+    for ch, e in out:
+        k = norm(e)
+        if k not in seen:
+            seen.add(k)
+            uniq.append((ch, e))
+    return uniq
+
+
+def same_product(e: ast.AST, a: str, b: str) -> bool:
+    """Is `e` the product a*b in either order (normalised operand text)?"""
+    return isinstance(e, ast.BinOp) and isinstance(e.op, ast.Mult) and {norm(e.left), norm(e.right)} == {a, b} and (a != b or norm(e.left) == norm(e.right))
